@@ -24,6 +24,7 @@ LPA = "latest_per_author"
 EXPLANATION += ' (R11, round 9) = C02.R3: the byte primitives behind the bounds of the head scans.'
 EXPLANATION += ' (R12, round 10) = the prune-predicate rows of C02.R1 (an entry removed behind the back of the head bookkeeping leaves a head nobody holds).'
 EXPLANATION += ' (R13, round 12) = C16.R15: no per-document memo (e.g. of heads) in the store outlives the document.'
+EXPLANATION += " (R14, round 13) = C02.R2b: the parent lookup includes the key itself and the empty key (an older entry never replaces a newer one behind the head's back)."
 
 
 def r1(ctx):
@@ -489,6 +490,13 @@ def r13(ctx):
     C16.mem_state(ctx, "C13.R13")
     ctx.floor("C13.R13", 2)
 
+def r14(ctx):
+    """"the greatest timestamp among that author's entries currently in the replica": the head only rises (R1), so an older entry must
+    never replace a newer one at the same key - also at the empty key: the parent lookup of C02.R2b (C13-14: parents() skipped the
+    empty key, an older entry overwrote the newer one while the head stayed)"""
+    from . import C02
+    ctx.share("C13.R14", C02.r2, "C02.R2", keep=lambda k: "parents" in k or "empty-key" in k, floor=3)
+
 def run(ctx):
     ctx.run_rule("C13.R1", r1)
     ctx.run_rule("C13.R2", r2)
@@ -503,3 +511,4 @@ def run(ctx):
     ctx.run_rule("C13.R11", r11)
     ctx.run_rule("C13.R12", r12)
     ctx.run_rule("C13.R13", r13)
+    ctx.run_rule("C13.R14", r14)
